@@ -30,6 +30,7 @@ import numpy as np  # noqa: E402
 import common as C  # noqa: E402
 
 META = {
+    "claimed": True,
     "id": "C18",
     "coq_targets": ["Props/C18.vo", "Extract/Extract_C18.vo"],
     "technique": "Coq proof (membership characterisation of the frame loop via a dict-membership invariant; fold invariants for the node builders; counting lemma for the IoU table) + differential correspondence of the extracted model with the implementation + brute-force oracle over all node pairs",
